@@ -43,6 +43,9 @@ def _alarm(signum, frame):
 def _worker(arg):
     modname, case = arg
     mod = importlib.import_module(modname)
+    if os.environ.get("FV_FAULTHANDLER"):
+        import faulthandler
+        faulthandler.register(signal.SIGUSR1, file=open("/tmp/fv_fault_%d.txt" % os.getpid(), "w"), all_threads=False)
     signal.signal(signal.SIGALRM, _alarm)
     signal.alarm(int(case.get("_timeout", CASE_TIMEOUT)))
     t0 = time.time()
@@ -52,7 +55,12 @@ def _worker(arg):
         res = {"findings": [{"signature": ("slow:" + str(case.get("kind"))) if case.get("kind") == "scale" else "harness:timeout",
                              "what": "case exceeded %ss" % case.get("_timeout", CASE_TIMEOUT),
                              "replay": {"case": case}, "timeout": True}]}
-    except Exception as e:  # noqa: BLE001  harness bug, not a property violation
+    except InputTimeout:
+        res = {"findings": [{"signature": "harness:timeout", "what": "an input-level time limit fired outside its guard",
+                             "replay": {"case": case}, "timeout": True}]}
+    except BaseException as e:  # noqa: BLE001  harness bug, not a property violation.  BaseException:
+        # a SystemExit (the reader's error() calls sys.exit) that reaches this point would
+        # otherwise end the pool worker and lose the task, and the parent would wait for ever
         res = {"harness_error": "%s: %s\n%s" % (type(e).__name__, e, traceback.format_exc()[-1500:]), "case": case}
     finally:
         signal.alarm(0)
@@ -80,8 +88,25 @@ def run_cases(modname, cases, rep, nproc=None, chunksize=1):
     else:
         pool = ctx.Pool(min(nproc, len(cases)))
         it = pool.imap_unordered(_worker, args, chunksize)
+    # a worker that dies (killed, crashed interpreter) loses its task: never wait for ever
+    stall = max([int(c.get("_timeout", CASE_TIMEOUT)) for c in cases]) + 120
+
+    def _results():
+        if pool is None:
+            yield from it
+            return
+        while True:
+            try:
+                yield it.next(timeout=stall)
+            except StopIteration:
+                return
+            except mp.TimeoutError:
+                harness_errors.append({"harness_error": "no result for %d s: a worker process died and its case was lost "
+                                                        "(%d of %d cases returned)" % (stall, len(results) + len(harness_errors), len(cases))})
+                pool.terminate()
+                return
     try:
-        for res in it:
+        for res in _results():
             if "harness_error" in res:
                 harness_errors.append(res)
                 continue
